@@ -1,5 +1,269 @@
-(* C02 — placeholder while the proofs are written. *)
-From Coq Require Import List NArith.
-From Mant Require Import Model.Ntlmv1.
-Example C02_parity_bit_0 : parity_bit 0 = 1%N.
-Proof. reflexivity. Qed.
+(* C02 — NTLMv1/NTLMv2 responses verify under an independent MS-NLMP verifier.
+   Statements only; proofs are in Proofs/C02Parity.v, C02V1.v, C02V2.v, C02Text.v.
+
+   Models: Model/Ntlmv1.v (crypto/ntlmv1), Model/Ntlmv2.v (crypto/ntlmv2 and the response helpers of
+   spnego/ntlm).  Spec: Spec/C02.v (DESL, NTOWFv1/v2, the verifier verify_v2 with the blob parser blob_wf,
+   the hashcat field rules).  `upper` is ANY upper-casing function (strings.ToUpper in the Go code): every
+   theorem quantifies over it.  Strings are Go strings (byte lists), of any content. *)
+From Coq Require Import List NArith Lia Bool.
+From Mant Require Import Prim.R Prim.Bytes Prim.Dec Prim.C02Text Algo.Utf16 Algo.Utf8 Algo.DES Algo.Hex
+  Gen.ConstsC02 Model.Ntlmv1 Model.Ntlmv2 Spec.C02
+  Proofs.C02Parity Proofs.C02V1 Proofs.C02V2 Proofs.C02Text.
+Import ListNotations.
+Open Scope N_scope.
+
+(* ------------------------------------------------------------------------------------------------ *)
+(* Odd-parity key expansion *)
+
+(* One 7-bit group, all 2^7 values: the Go bit loop followed by `| ParityBit` produces the byte of the
+   MS-NLMP expansion. *)
+Theorem C02_parity_group : forall b1 b2 b3 b4 b5 b6 b7 : bool,
+  [group_byte b1 b2 b3 b4 b5 b6 b7] = expand7 [b1; b2; b3; b4; b5; b6; b7].
+Proof. exact group_byte_spec. Qed.
+Print Assumptions C02_parity_group.
+
+(* Every 7-byte DES key half: ParityAdjust is the MS-NLMP expansion, 8 bytes, each of odd parity, byte g
+   carrying key bits 7g..7g+6 in its seven high positions. *)
+Theorem C02_parity : forall k7, length k7 = 7%nat ->
+  parity_adjust k7 = str_to_key k7 /\
+  length (parity_adjust k7) = 8%nat /\
+  forallb odd_parity (parity_adjust k7) = true /\
+  (forall g, (g < 8)%nat -> high7 (nth g (parity_adjust k7) 0) = key_group k7 g).
+Proof.
+  intros k7 H. split; [apply parity_adjust_spec|]. split; [now apply parity_adjust_length|].
+  split; [apply parity_adjust_odd|]. intros g Hg. now apply parity_adjust_groups.
+Qed.
+Print Assumptions C02_parity.
+
+(* ... and for a byte string of any length (the function accepts any; trailing bits short of a group are
+   dropped on both sides) *)
+Theorem C02_parity_any_length : forall k,
+  parity_adjust k = str_to_key k /\ forallb odd_parity (parity_adjust k) = true.
+Proof. intros k. split; [apply parity_adjust_spec | apply parity_adjust_odd]. Qed.
+Print Assumptions C02_parity_any_length.
+
+(* ParityBit(n) for every n >= 0: 1 exactly when n has an even number of 1 bits *)
+Theorem C02_parity_bit : forall n, parity_bit n = if Nat.even (count_ones n) then 1 else 0.
+Proof. exact parity_bit_spec. Qed.
+Print Assumptions C02_parity_bit.
+
+(* ------------------------------------------------------------------------------------------------ *)
+(* NTLMv1 *)
+
+(* Whichever entry point computes it: for every 16-byte NT hash and 8-byte challenge, Hash and NTResponse
+   both return DESL(hash, challenge). *)
+Theorem C02_v1_agree : forall nthash password sc,
+  length nthash = 16%nat -> length sc = 8%nat ->
+  ntlmv1_hash nthash password sc = Ok (desl nthash sc) /\
+  nt_response nthash sc = Ok (desl nthash sc).
+Proof. exact v1_agree. Qed.
+Print Assumptions C02_v1_agree.
+
+(* From a password (NewNTLMv1WithPassword): Hash = NTResponse = DESL(NTOWFv1(password), challenge) and
+   LMResponse = DESL(LM hash, challenge), for every password and 8-byte challenge. *)
+Theorem C02_v1_password : forall upper password sc,
+  length sc = 8%nat ->
+  exists nth pw c, new_with_password password sc = Ok (nth, pw, c) /\
+    ntlmv1_hash nth pw c = Ok (desl (ntowfv1 password) sc) /\
+    nt_response nth c = Ok (desl (ntowfv1 password) sc) /\
+    lm_response upper pw c = Ok (desl (lm_hash upper password) sc).
+Proof. exact v1_password_agree. Qed.
+Print Assumptions C02_v1_password.
+
+(* LMResponse for every 16-byte LM hash *)
+Theorem C02_v1_lm : forall lmhash sc,
+  length lmhash = 16%nat -> length sc = 8%nat -> lm_response_of lmhash sc = Ok (desl lmhash sc).
+Proof. intros lmhash sc H1 H2. unfold lm_response_of. rewrite (lenN_eq _ _ H2). now apply response_core. Qed.
+Print Assumptions C02_v1_lm.
+
+(* Hash on a struct that has a password but no NT hash *)
+Theorem C02_v1_hash_from_password : forall password sc,
+  password <> [] -> length sc = 8%nat ->
+  ntlmv1_hash [] password sc = Ok (desl (ntowfv1 password) sc).
+Proof. exact v1_hash_from_password. Qed.
+Print Assumptions C02_v1_hash_from_password.
+
+(* The complete behaviour of the three methods, for fields of ANY length (since f8902fa / 346a305 a hash that
+   is not 16 bytes or a challenge that is not 8 bytes is an error). *)
+Theorem C02_v1_outcomes : forall upper nthash password sc,
+  ntlmv1_hash nthash password sc = hash_outcome nthash password sc /\
+  nt_response nthash sc = nt_response_outcome nthash sc /\
+  lm_response upper password sc =
+    (if negb (lenN sc =? 8) then Err else Ok (desl (lm_hash upper password) sc)).
+Proof.
+  intros. split; [apply ntlmv1_hash_char|]. split; [apply nt_response_char | apply lm_response_char].
+Qed.
+Print Assumptions C02_v1_outcomes.
+
+(* ------------------------------------------------------------------------------------------------ *)
+(* NTLMv2 (crypto/ntlmv2) *)
+
+(* ResponseKeyNT is NTOWFv2 (user name upper-cased, domain as supplied) *)
+Theorem C02_v2_response_key : forall upper domain user password,
+  new_ntlmv2_key upper domain user password = ntowfv2 upper password user domain.
+Proof. exact new_ntlmv2_key_spec. Qed.
+Print Assumptions C02_v2_response_key.
+
+(* For every credential (any strings), server challenge, 8-byte client challenge and time stamp, the
+   response is accepted by the verifier that knows the password: NTProofStr is HMAC-MD5 keyed with NTOWFv2
+   over the server challenge followed by the rest, and the rest is a well-formed client blob carrying the
+   client challenge.  The only exclusion: a domain whose UTF-16 form does not fit an AV_PAIR (then Hash
+   returns an error, C02_v2_domain_too_long). *)
+Theorem C02_v2_verifies : forall upper domain user password sc cc ts,
+  length cc = 8%nat -> lenN (unicode domain) <= 65535 ->
+  exists resp, ntlmv2_hash upper domain user password sc cc ts = Ok resp /\
+               verify_v2 upper password user domain sc resp cc = true.
+Proof. exact ntlmv2_hash_verifies. Qed.
+Print Assumptions C02_v2_verifies.
+
+Theorem C02_v2_domain_too_long : forall upper domain user password sc cc ts,
+  65535 < lenN (unicode domain) -> ntlmv2_hash upper domain user password sc cc ts = Err.
+Proof. exact ntlmv2_hash_too_long. Qed.
+Print Assumptions C02_v2_domain_too_long.
+
+(* The exported hashcat line, split on ':' into user, "", domain, 16 hex, 32 hex, hex, verifies against
+   the same password — for user and domain names without ':' (the format has no quoting). *)
+Theorem C02_hashcat : forall upper domain user password sc cc ts,
+  ~ In 58 user -> ~ In 58 domain ->
+  length sc = 8%nat -> wf_bytes sc -> length cc = 8%nat -> wf_bytes cc ->
+  lenN (unicode domain) <= 65535 ->
+  exists line, to_hashcat upper domain user password sc cc ts = Ok line /\
+               hashcat_verify upper password line cc = true.
+Proof. exact to_hashcat_verifies. Qed.
+Print Assumptions C02_hashcat.
+
+(* ------------------------------------------------------------------------------------------------ *)
+(* The payloads of CreateAuthenticateMessage (spnego/ntlm) *)
+
+(* Whenever a message is produced, its NtChallengeResponse / LmChallengeResponse verify for the user name
+   as supplied and the domain AS THE MESSAGE CARRIES IT (upper-cased): NTLMv2 + LMv2 under extended session
+   security, DESL of the NT / LM hash otherwise.  The server's TargetInfo must be an AV_PAIR list (or
+   absent): it is copied into the blob. *)
+Theorem C02_authenticate_payloads : forall upper flags sc ti user password domain ws cc lmcc ts lm nt,
+  length sc = 8%nat -> length cc = 8%nat -> length lmcc = 8%nat ->
+  (ti = [] \/ target_info_wf ti = true) ->
+  auth_payloads upper flags sc ti user password domain ws cc lmcc ts = Ok (lm, nt) ->
+  if has_flag flags c02_f_ess
+  then verify_v2 upper password user (upper domain) sc nt cc = true /\
+       verify_lmv2 upper password user (upper domain) sc lm = true
+  else nt = desl (ntowfv1 password) sc /\ lm = desl (lm_hash upper password) sc.
+Proof. exact auth_payloads_verify. Qed.
+Print Assumptions C02_authenticate_payloads.
+
+(* ... and a message is produced whenever the fields fit their 16-bit lengths *)
+Theorem C02_authenticate_exists : forall upper flags sc ti user password domain ws cc lmcc ts,
+  has_flag flags c02_f_ess = true -> length cc = 8%nat -> length lmcc = 8%nat ->
+  lenN ti <= 65535 - 48 ->
+  let enc s := if has_flag flags c02_f_unicode then go_utf16le s else s in
+  lenN (enc (upper domain)) <= 65535 -> lenN (enc user) <= 65535 -> lenN (enc (upper ws)) <= 65535 ->
+  exists lm nt, auth_payloads upper flags sc ti user password domain ws cc lmcc ts = Ok (lm, nt).
+Proof. exact auth_payloads_v2_ok. Qed.
+Print Assumptions C02_authenticate_exists.
+
+(* ------------------------------------------------------------------------------------------------ *)
+(* UNICODE(): on every valid UTF-8 string (RFC 3629 section 4) it is RFC 3629 decoding followed by RFC 2781
+   UTF-16LE encoding; the UTF-8 encoding of any text (Unicode scalar values, any script) denotes that text *)
+Theorem C02_unicode_valid : forall s cps, utf8_decode s = Some cps -> unicode s = utf16le_encode cps.
+Proof. exact go_utf16le_valid. Qed.
+Print Assumptions C02_unicode_valid.
+
+Theorem C02_unicode_text : forall cps, Forall scalar_value cps -> unicode (utf8_encode cps) = utf16le_encode cps.
+Proof. intros cps H. apply go_utf16le_valid, Proofs.AlgoProofs.utf8_decode_encode, H. Qed.
+Print Assumptions C02_unicode_text.
+
+(* ------------------------------------------------------------------------------------------------ *)
+(* Totality: no input makes a modelled entry point panic (reused by C07) *)
+Theorem C02_total_parity_adjust : forall k, (Ok (parity_adjust k) : R (list N)) <> Panic.
+Proof. discriminate. Qed.
+Print Assumptions C02_total_parity_adjust.
+
+Theorem C02_total_hash : forall nthash password sc, ntlmv1_hash nthash password sc <> Panic.
+Proof. exact ntlmv1_hash_total. Qed.
+Print Assumptions C02_total_hash.
+
+Theorem C02_total_string : forall nthash password sc, ntlmv1_string nthash password sc <> Panic.
+Proof. exact ntlmv1_string_total. Qed.
+Print Assumptions C02_total_string.
+
+Theorem C02_total_nt_response : forall nthash sc, nt_response nthash sc <> Panic.
+Proof. exact nt_response_total. Qed.
+Print Assumptions C02_total_nt_response.
+
+Theorem C02_total_lm_response : forall upper password sc, lm_response upper password sc <> Panic.
+Proof. exact lm_response_total. Qed.
+Print Assumptions C02_total_lm_response.
+
+Theorem C02_total_ntlmv2_hash : forall upper domain user password sc cc ts,
+  ntlmv2_hash upper domain user password sc cc ts <> Panic.
+Proof. exact ntlmv2_hash_total. Qed.
+Print Assumptions C02_total_ntlmv2_hash.
+
+Theorem C02_total_to_hashcat : forall upper domain user password sc cc ts,
+  to_hashcat upper domain user password sc cc ts <> Panic.
+Proof. exact to_hashcat_total. Qed.
+Print Assumptions C02_total_to_hashcat.
+
+Theorem C02_total_auth_payloads : forall upper flags sc ti user password domain ws cc lmcc ts,
+  auth_payloads upper flags sc ti user password domain ws cc lmcc ts <> Panic.
+Proof. exact auth_payloads_total. Qed.
+Print Assumptions C02_total_auth_payloads.
+
+(* ------------------------------------------------------------------------------------------------ *)
+(* Non-vacuity and validation of the specification against the values MS-NLMP prints (section 4.2:
+   user "User", domain "Domain", password "Password", server challenge 0123456789abcdef, client
+   challenge aaaaaaaaaaaaaaaa). *)
+From Coq Require Import String.
+Definition ex_sc : list N := hex "0123456789abcdef"%string.
+Definition ex_cc : list N := hex "aaaaaaaaaaaaaaaa"%string.
+
+Example C02_spec_ntowfv1 : ntowfv1 (str "Password"%string) = hex "a4f49c406510bdcab6824ee7c30fd852"%string.
+Proof. vm_compute. reflexivity. Qed.
+Example C02_spec_ntlmv1_response :
+  desl (ntowfv1 (str "Password"%string)) ex_sc = hex "67c43011f30298a2ad35ece64f16331c44bdbed927841f94"%string.
+Proof. vm_compute. reflexivity. Qed.
+Example C02_spec_lmv1_response :
+  desl (lm_hash ascii_upper (str "Password"%string)) ex_sc = hex "98def7b87f88aa5dafe2df779688a172def11c7d5ccdef13"%string.
+Proof. vm_compute. reflexivity. Qed.
+Example C02_spec_ntowfv2 :
+  ntowfv2 ascii_upper (str "Password"%string) (str "User"%string) (str "Domain"%string) = hex "0c868a403bfd7a93a3001ef22ef02e3f"%string.
+Proof. vm_compute. reflexivity. Qed.
+Example C02_spec_str_to_key : (* the vector pinned by TestParityAdjust: "0123456" -> "1\x19LF2\xa1\xd5m" *)
+  str_to_key (str "0123456"%string) = hex "31194c4632a1d56d"%string /\
+  parity_adjust (str "0123456"%string) = hex "31194c4632a1d56d"%string.
+Proof. vm_compute. split; reflexivity. Qed.
+
+(* the hypotheses of the theorems are satisfiable and the verifier accepts the model's output *)
+Example C02_v2_example :
+  exists resp, ntlmv2_hash ascii_upper (str "corp"%string) (str "user"%string) (str "Password"%string) ex_sc ex_cc 134000000000000000 = Ok resp
+    /\ verify_v2 ascii_upper (str "Password"%string) (str "user"%string) (str "corp"%string) ex_sc resp ex_cc = true
+    /\ hashcat_verify ascii_upper (str "Password"%string)
+         (match to_hashcat ascii_upper (str "corp"%string) (str "user"%string) (str "Password"%string) ex_sc ex_cc 134000000000000000
+          with Ok l => l | _ => [] end) ex_cc = true.
+Proof. eexists. split; [vm_compute; reflexivity|]. split; vm_compute; reflexivity. Qed.
+
+(* the verifier discriminates: it rejects the three behaviours the unrepaired code had
+   (a response keyed with the upper-cased domain; a blob carrying the raw UTF-16 domain in place of the
+   AV_PAIR list; a hashcat line with the client challenge in the NTProofStr field) and a wrong password *)
+Example C02_verifier_rejects :
+  let dom := str "corp"%string in let user := str "user"%string in let pw := str "Password"%string in
+  let ts := 134000000000000000 in
+  let blob_ok := [1; 1; 0; 0; 0; 0; 0; 0] ++ le64 ts ++ ex_cc ++ [0; 0; 0; 0]
+                 ++ [2; 0; 8; 0] ++ unicode dom ++ [0; 0; 0; 0] ++ [0; 0; 0; 0] in
+  let blob_raw := [1; 1; 0; 0; 0; 0; 0; 0] ++ le64 ts ++ ex_cc ++ [0; 0; 0; 0] ++ unicode dom ++ [0; 0; 0; 0] in
+  let resp key blob := Algo.HMAC.hmac_md5 key (ex_sc ++ blob) ++ blob in
+  verify_v2 ascii_upper pw user dom ex_sc (resp (ntowfv2 ascii_upper pw user dom) blob_ok) ex_cc = true /\
+  verify_v2 ascii_upper pw user dom ex_sc (resp (ntowfv2 ascii_upper pw user (str "CORP"%string)) blob_ok) ex_cc = false /\
+  verify_v2 ascii_upper pw user dom ex_sc (resp (ntowfv2 ascii_upper pw user dom) blob_raw) ex_cc = false /\
+  verify_v2 ascii_upper (str "password"%string) user dom ex_sc (resp (ntowfv2 ascii_upper pw user dom) blob_ok) ex_cc = false /\
+  hashcat_verify ascii_upper pw
+    (user ++ [58; 58] ++ dom ++ [58] ++ hex_of_bytes false ex_sc ++ [58] ++ hex_of_bytes false ex_cc ++ [58]
+     ++ hex_of_bytes false (resp (ntowfv2 ascii_upper pw user dom) blob_ok)) ex_cc = false.
+Proof. vm_compute. repeat split; reflexivity. Qed.
+
+Example C02_target_info_example :
+  target_info_wf (hex "0200040043004400 0100020057"%string) = false /\
+  target_info_wf (hex "0200040043004400 0100020057 00 00000000"%string) = true /\
+  blob_wf (ssp_blob ex_cc (hex "0200040043004400 0100020057 00 00000000"%string) 5) ex_cc = true /\
+  blob_wf (ssp_blob ex_cc [] 5) ex_cc = true /\
+  blob_wf (ssp_blob ex_cc (hex "4300"%string) 5) ex_cc = false.
+Proof. vm_compute. repeat split; reflexivity. Qed.
